@@ -241,6 +241,8 @@ def run(ctx):
     # when the next one begins - whatever its own start, zero included
     ctx.prove("scc.TimingCorrectingCaptionList._update_last_batch", C06.update_last_batch,
               functions=[TimingCorrectingCaptionList._update_last_batch], setup_interp=setup, crosscheck=False)
+    import props.C16_list as TLS
+    TLS.prove_list_skeleton(ctx)      # (append / extend: what is kept, and that ALL parts of the previous caption are closed)
     # captions that never got an end (the last paint-on group, split over non-adjacent rows) all get one: start < end
     from pycaption.scc import fix_last_captions_without_ending
     ctx.prove("scc.fix_last_captions_without_ending", C06.last_captions, functions=[fix_last_captions_without_ending],
